@@ -23,12 +23,12 @@ STRESS = [("TRAVEL", "I1"), ("TRAVEL", "O2"), ("PRINT", "O1"), ("PRINT", "I2"), 
           ("ESET", "0.00001"), ("ESET", "10000000000000000"), ("ESET0",),
           ("REL",), ("ABS",), ("NUDGE", "X", "0.1"), ("NUDGE", "X", "0.2"), ("NUDGE", "X", "-0.3"), ("NUDGE", "Y", "0.1"),
           ("INCH",), ("MM",), ("RAW", "G1 F0.00001"), ("RAW", "G1 F100000000000000000000"),
-          ("RAW", "M204 S0.0000001"), ("RAW", "M204 T1000000000000000000000"), ("ZMOVE", 2)]
+          ("RAW", "M204 S0.0000001"), ("RAW", "M204 T1000000000000000000000"), ("RAW", "M204 S0"), ("ZMOVE", 2)]
 
 
 def scenarios(tier):
     q = tier == "quick"
-    cfg = dict(prop="C07", monitors=("c07", "c03", "c04"), regions=["R"], retract="0.00002", estep="0.00002",
+    cfg = dict(prop="C07", monitors=("c07", "c03", "c04", "c06"), regions=["R"], retract="0.00002", estep="0.00002",
                emax="0.0001")
     return [Scenario("c07-value-stress", World, cfg, STRESS, max_depth=5 if q else 7, max_states=3000000,
                      note="values drift (relative + inch rounding, tiny accumulation): depth-bounded by design")]
@@ -39,7 +39,7 @@ MANT = ["1", "1.5", "2.5", "9.999", "1.2345678", "3"]
 
 
 def values():
-    out = []
+    out = ["0", "0.0", "000"]
     for exp in range(-12, 18):
         for m in MANT:
             digits = m.replace(".", "")
@@ -55,7 +55,7 @@ def values():
 
 
 _BASE = {}
-CFG2 = dict(prop="C07", monitors=("c07", "c03"), regions=["R"], key_depth=False)
+CFG2 = dict(prop="C07", monitors=("c07", "c03", "c06"), regions=["R"], key_depth=False)
 
 
 def base():
